@@ -57,7 +57,8 @@ func VxC14WatermarkDurableBeforeFileRemoval() {
 	vxFsEvents = nil
 	vxWatermarkFails = vx.Bool("watermark-fails")
 	s := vxNewStore(types.Height(vx.U64("watermark")))
-	s.wal = &walWriter{currentWALNum: 2, nextWALNum: 3}
+	s.wal = newWALWriter(nil, "", 3)
+	s.wal.currentWALNum = 2
 	backlog := vx.U64("backlog")
 	vx.Assume(backlog <= cleanupPruneRecordInterval)
 	s.pruneRecordsSinceCleanup = backlog
